@@ -60,6 +60,19 @@ def cases(tier):
                 if ti < 3:
                     out.append(dict(scen="pad", topo=topo, rule=rule, widths=[], order=ti, diff=["X", "Y"]))
                     out.append(dict(scen="pad", topo=topo, rule=rule, widths=[], order=ti, diff=["Y", "X"]))
+    for faces in (False, True):
+        for w in ([{"X": [1, 1], "Y": [1, 1]}], [{"Y": [1, 0], "X": [0, 1]}], [{"X": [1, 0], "Y": [0, 1], "Z": [1, 1]}] if not faces else [{"Y": [2, 1], "X": [1, 2]}]):
+            out.append(dict(scen="pad2", faces=faces, widths=w))
+    # differential runs in fresh interpreters under real hash seeds: independent of how an unordered collection
+    # arises in the code (dict-view algebra and set displays cannot be intercepted by name injection)
+    out.append(dict(scen="pad2", faces=False, widths=[{"X": [1, 1], "Y": [1, 1]}], realseeds=True))
+    out.append(dict(scen="pad2", faces=True, widths=[{"X": [1, 1], "Y": [1, 1]}], realseeds=True))
+    out.append(dict(scen="pad", topo="periodic", rule="extend", widths=[{"X": [1, 1], "Y": [1, 1]}], order=0, realseeds=True))
+    out.append(dict(scen="sig", pairs=[list(SIG_PAIRS[0]), list(SIG_PAIRS[6])], realseeds=True))
+    out.append(dict(scen="parse", conv="comodo", axes=["X", "Y", "Z"], realseeds=True))
+    out.append(dict(scen="parse", conv="sgrid", axes=["X", "Y", "Z"], realseeds=True))
+    out.append(dict(scen="metric", registry=["a_xy", "dz", "a_xz", "dy"], requests=[["X", "Y", "Z"]], op="get_metric", realseeds=True))
+    out.append(dict(scen="metric", registry=["a_xy", "a_xz", "a_yz", "dx", "dy", "dz"], requests=[["Z", "Y", "X"]], op="integrate", realseeds=True))
     for i in range(0, len(SIG_PAIRS)):
         out.append(dict(scen="sig", pairs=[list(SIG_PAIRS[i])]))
     for axes in (["X", "Y"], ["X", "Y", "Z"], ["Y", "X"], ["Z", "Y", "X"]) + ((["T", "X", "Y", "Z"],) if tier == "thorough" else ()):
@@ -84,7 +97,7 @@ def cases(tier):
 def prechecks(tier):
     hits = nondet.scan_sources(harness.repo_root())
     errs = ["set display/comprehension in %s:%d (%s) cannot be intercepted" % h for h in hits]
-    return {"errors": errs, "coverage": {"set_literal_scan": "0 set displays / comprehensions in %d xgcm modules" % len(nondet.MODULES) if not hits else str(hits)}}
+    return {"errors": errs, "coverage": {"dict_view_set_algebra_not_interceptable": nondet.scan_uninterceptable(harness.repo_root()), "set_literal_scan": "0 set displays / comprehensions in %d xgcm modules" % len(nondet.MODULES) if not hits else str(hits)}}
 
 
 def scen_cfg(cfg, order_index):
@@ -104,6 +117,16 @@ def case(W, cfg):
         return a
 
     oi = cfg.get("order", 0)
+    if W.sym and cfg.get("realseeds"):
+        # not symbolic: a differential run under sampled real seeds (concrete seeded data), see cases()
+        Wf = harness.World("float", seed=1)
+        Wf.purpose = "realseeds"
+        case(Wf, cfg)
+        for f in Wf.failures:
+            W.fail(f["label"], f["detail"])
+        W.require("realseeds-run", True)
+        W.record("realseeds", ["done"])
+        return
     if W.sym:
         nondet.STATE["iterations"] = 0
         with nondet.injected():
@@ -120,7 +143,7 @@ def case(W, cfg):
         return
     # float mode: fresh interpreters under real hash seeds, unmodified code
     purpose = getattr(W, "purpose", "consistency")
-    seeds = list(range(24)) if purpose == "replay" else [0, 1, 2, 3, 5]
+    seeds = list(range(24)) if purpose == "replay" else (list(range(10)) if purpose == "realseeds" or cfg.get("realseeds") else [0, 1, 2, 3, 5])
     # draw the concrete data once (names as in the symbolic run)
     probe = C12_scen.run(scen_cfg(cfg, 0), mk)
     env = dict(W.used)
@@ -146,11 +169,14 @@ def case(W, cfg):
     if outs[ref_key][2] != 0:
         raise harness.HarnessError("scenario subprocess failed: %s" % outs[ref_key][1])
     ref = json.loads(outs[ref_key][0])
-    for (t, v) in ref:
-        if isinstance(v, list) and v and isinstance(v[0], float):
-            W.record("order-independent:" + t, v)
-        else:
-            W.record("order-independent:" + t, [str(_py(v))])
+    if cfg.get("realseeds"):
+        W.record("realseeds", ["done"])
+    else:
+        for (t, v) in ref:
+            if isinstance(v, list) and v and isinstance(v[0], float):
+                W.record("order-independent:" + t, v)
+            else:
+                W.record("order-independent:" + t, [str(_py(v))])
     for key, (so, se, rc) in sorted(outs.items()):
         if rc != 0:
             W.fail("subprocess-failed", "seed %s order %s: %s" % (key[0], key[1], se))
@@ -177,7 +203,7 @@ def _close(a, b):
 
 def finding_key(cfg, v):
     lab = v["label"]
-    if cfg["scen"] == "pad":
+    if cfg["scen"] in ("pad", "pad2"):
         return "halo-corner-cells-depend-on-set-order"
     if cfg["scen"] == "sig":
         return "signature-equivalence-zips-sets"
